@@ -152,7 +152,13 @@ pub fn compare_outcome(r: &RefOutcome, o: &Outcome, cfg: &DiffCfg) -> DiffVerdic
             rep.class, rep.head
         )),
         (RefEnd::Err(rep), End::Err(k, msgs)) => {
-            if yrun::kind_name(*k) != rep.kind {
+            // the ErrorKind an embedder sees is defined for the core error classes and for thrown
+            // non-error values; for a user-defined class nothing states whether it is the generic
+            // kind or that of a core ancestor, so only the reported class name is compared
+            let user_class = rep.class != "exception"
+                && !["Error", "AttributeError", "ImportError", "IndexError", "NameError", "RuntimeError", "TypeError", "ValueError", "StopIter"]
+                    .contains(&rep.class.as_str());
+            if !user_class && yrun::kind_name(*k) != rep.kind {
                 return DiffVerdict::Mismatch(format!(
                     "error kind differs: expected {}, yarel {:?} ({:?})",
                     rep.kind, k, msgs
@@ -173,7 +179,7 @@ pub fn compare_outcome(r: &RefOutcome, o: &Outcome, cfg: &DiffCfg) -> DiffVerdic
             }
             // an exception that passed through a finally block before becoming uncaught has no
             // defined position (DESIGN.md Appendix B)
-            let through_finally = r.events.get("finally_pending_throw").copied().unwrap_or(0) > 0;
+            let through_finally = rep.through_finally;
             if cfg.compare_trace && !through_finally {
                 // compare the trace part from the end (the head may span several lines)
                 let nt = rep.trace.len();
